@@ -35,7 +35,7 @@ ASSUMPTIONS = [
     "every operation works on its own files, so a fix in operation j cannot legitimately change the input of operation k",
 ]
 CHAINS_ENABLED = True
-PROBES = ["shape:natural-failure-chain", "shape:sweep-chain", "shape:after-failed-fix", "shape:plugin-dirs", "shape:dirty-chain", "dirty_chain_faults_fired", "shape:chain", "history_cli_multi_invocation", "history_api_reuse", "history_with_fault", "multi_file_op", "carrier_pair_same_group", "extension_toggled", "api_after_exception"]
+PROBES = ["callback_traces_compared", "shape:natural-failure-chain", "shape:sweep-chain", "shape:after-failed-fix", "shape:plugin-dirs", "shape:dirty-chain", "dirty_chain_faults_fired", "shape:chain", "history_cli_multi_invocation", "history_api_reuse", "history_with_fault", "multi_file_op", "carrier_pair_same_group", "extension_toggled", "api_after_exception"]
 
 
 
@@ -450,7 +450,26 @@ def _history_request(sc, record_sites=False):
         request["plan"] = sc["plan"]
     if record_sites:
         request["record_sites"] = True
+    if sc.get("shape") in TRACED_SHAPES and not record_sites:
+        request["record_cb"] = ["zzz999"]
     return request
+
+
+TRACED_SHAPES = ("dirty-chain", "sweep-chain")
+
+
+def _probe_traces(reply):
+    """file -> what the recording probe rule was handed while that file was being
+    processed: [action, payload] with token digests, line texts and the line number the
+    context showed at that moment."""
+    traces = {}
+    current = None
+    for entry in (reply.get("result") or {}).get("log", []):
+        if entry[0] == "fs" and entry[1] == "open-r" and entry[2] == "target":
+            current = entry[3][4:]
+        elif entry[0] == "cb" and entry[1] == "zzz999" and current is not None:
+            traces.setdefault(current, []).append([entry[2], entry[3]])
+    return traces
 
 
 def _alone_request(sc, index):
@@ -582,6 +601,8 @@ def evaluate(sc):
             view = OpView(want)
             if view.exc or any(marker in view.stderr for marker in ("Unexpected Error", "Configuration Error", " encountered while scanning ")):
                 continue  # the operation was cut short at the failing file (no --continue-on-error)
+            traced = sc.get("shape") in TRACED_SHAPES
+            history_traces = _probe_traces(history) if traced else {}
             for name in op["docs"]:
                 if name in faulted_files:
                     continue
@@ -591,6 +612,8 @@ def evaluate(sc):
                     "cpu": 30,
                     "ops": [{"kind": "cli", "argv": op["flags"] + [op["mode"], name]}],
                 }
+                if traced:
+                    solo_request["record_cb"] = ["zzz999"]
                 solo_reply = cached_run(solo_request, sc["cls"])
                 evals += 1
                 if not done(solo_reply):
@@ -616,6 +639,26 @@ def evaluate(sc):
                         )
                     )
                     break
+                if traced:
+                    stats["callback_traces_compared"] += 1
+                    got_trace, want_trace = history_traces.get(name, []), _probe_traces(solo_reply).get(name, [])
+                    if got_trace != want_trace:
+                        first = next((i for i, (a, b) in enumerate(zip(got_trace, want_trace)) if a != b), min(len(got_trace), len(want_trace)))
+                        out.append(
+                            violation(
+                                "C13/file-differs-from-solo",
+                                "C13/file-differs-from-solo|%s|callback-trace" % op["mode"],
+                                {
+                                    "op_index": index,
+                                    "file": name,
+                                    "document": op["labels"].get(name),
+                                    "first_difference_at": first,
+                                    "in_history": got_trace[first : first + 2],
+                                    "alone": want_trace[first : first + 2],
+                                },
+                            )
+                        )
+                        break
                 if alone_tree.get(name) != tree_bytes(solo_reply).get(name):
                     out.append(
                         violation(
